@@ -479,9 +479,9 @@ MUTANTS = [
     M('verbose-changes-data', S, "bound.sample(1000, return_points=False, pool=self.pool_s)",
       "bound.sample(2000 if verbose else 1000, return_points=False, pool=self.pool_s)", 'C11'),
     M('filepath-branch-mutates', S,
-      "                if self.filepath is not None:\n"
+      "                elif self.filepath is not None:\n"
       "                    # Write the complete file if this is the first batch.\n",
-      "                if self.filepath is not None:\n"
+      "                elif self.filepath is not None:\n"
       "                    self.n_like_iter += 1\n"
       "                    # Write the complete file if this is the first batch.\n", 'C11'),
     M('unseeded-generator', NE,
@@ -799,6 +799,14 @@ MUTANTS = [
     M('legacy-block-rule-differs', U, "                len(points) < 2 * bound.n_points_min for points in",
       "                len(points) < bound.n_points_min for points in", 'C13'),
     M('emulator-count-not-written', NN, "        group.attrs['n_networks'] = len(self.neural_networks)\n", "", 'C09'),
+    M('checkpoint-before-end-of-exploration', S,
+      "                self.n_like_iter += self.n_batch\n\n                if self.f_live <= f_live:\n",
+      "                self.n_like_iter += self.n_batch\n"
+      "                if self.filepath is not None:\n"
+      "                    if self.n_like == self.n_batch:\n"
+      "                        self.write(self.filepath, overwrite=True)\n"
+      "                    self.write_shell_update(self.filepath, -1)\n\n"
+      "                if self.f_live <= f_live:\n", 'C05'),
     M('job-returns-the-caller', N,
       "        bound.sample(n_points=n_points, return_points=False)\n        return bound\n",
       "        bound.sample(n_points=n_points, return_points=False)\n        return self\n", 'C08 C03'),
